@@ -119,7 +119,7 @@ Qed.
 Lemma ex_pline : pline root line pc1 1 false.
 Proof.
   destruct ex_pitems as [F Hp]. unfold line.
-  eapply (pl_down root pre0 F PSValuesDone 3 ValueDone w_sub _ pc1).
+  eapply (pl_down root pre0 F PSValuesDone 3 ValueDone 3 w_sub _ pc1).
   - apply lvlw_b_ok. vmr.
   - apply b18_plain. exact Hp.
   - exact I.
@@ -229,7 +229,7 @@ Qed.
 Lemma ex_pline : pline root line pc1 1 false.
 Proof.
   destruct ex_pitems as [F Hp]. unfold line.
-  eapply (pl_down root pre0 F PSValuesDone 1 ValueDone w_sub _ pc1).
+  eapply (pl_down root pre0 F PSValuesDone 1 ValueDone 1 w_sub _ pc1).
   - apply lvlw_b_ok. vmr.
   - apply b18_plain. exact Hp.
   - exact I.
@@ -257,3 +257,111 @@ Proof.
   split; [vmr|]. split; vmr.
 Qed.
 End PartialLine.
+
+(** * A BOUNDED multi-valued positional with all the values it admits ([body18]'s constructor [b18_multi_max])
+
+    `p(<files>{1..2}; subcommand_precedence_over_arg) -> sub(--so)`, line `f1 f2 sub`: behind `f2` the engine has moved on
+    ([ValueDone], index 2) while the parser still collects ([PSPos files], counter 1); the subcommand name is read by both
+    (the parser because the level sets the precedence), the engine stands at `sub`, the completed line parses.  WITHOUT the
+    setting the parser takes `sub` for a third value and rejects the line - TooManyValues, not an "unknown" error - while
+    the engine descends (its candidates behind a rejected prefix are not judged by the property). *)
+Module MaxLine.
+Definition w_files : bytes := [102; 105; 108; 101; 115].
+Definition w_sub : bytes := [115; 117; 98].
+Definition w_so : bytes := [115; 111].
+Definition ddw (s : bytes) : bytes := 45 :: 45 :: s.
+Definition ext0 : cmd :=
+  (cmd_new [112])
+    <| c_args := [ (arg_new w_files) <| a_action := Some ASet |> <| a_num := Some {| vmin := 1; vmax := 2 |} |> ] |>
+    <| c_subs := [ (cmd_new w_sub) <| c_args := [ (arg_new w_so) <| a_long := Some w_so |> <| a_action := Some ASetTrue |> ] |> ] |>.
+Definition ext : cmd := ext0 <| c_set := settings_none <| s_sub_precedence := true |> |>.
+Definition root : cmd := build_self (with_bin ext [112]).
+Definition pc1 : cmd := match build_subcommand root w_sub with Some x => x | None => cmd_new [] end.
+Definition a_files : arg := match find_arg root w_files with Some a => a | None => arg_new [] end.
+Definition line : list bytes := ([] ++ [102; 49] :: [[102; 50]]) ++ w_sub :: [].
+
+Lemma ex_pline : pline root line pc1 1 false.
+Proof.
+  unfold line.
+  eapply (pl_down root _ _ (PSPos (a_id a_files)) 1 ValueDone 2 w_sub _ pc1).
+  - apply lvlw_b_ok. vmr.
+  - eapply (b18_multi_max root [] _ 1 a_files [102; 49] [[102; 50]]); [apply p18_nil| |vm_compute; reflexivity].
+    refine (conj _ (conj _ (conj _ _))); cycle 3.
+    + repeat (apply Forall_cons; [split; [solve_plain|solve_takes]|]). apply Forall_nil.
+    + vmr.
+    + solve_nosub.
+    + intros _. apply Forall_cons; [solve_nosub|apply Forall_nil].
+  - vmr.
+  - intros E. vm_compute in E. discriminate E.
+  - vmr.
+  - vmr.
+  - vmr.
+  - vmr.
+  - eapply (pl_here pc1 []); [apply lvlw_b_ok; vmr|apply p18_nil].
+Qed.
+
+Definition kind_of (o : outcome) : option ekind := match o with OErr e => Some (e_kind e) | _ => None end.
+Definition level_at (c : cmd) (args : list bytes) (i : N) : option (bytes * N) :=
+  match build_full (build_fuel c) c with
+  | BOk b => match start_walk b args i with WAt _ cur pi ValueDone false _ => Some (c_name cur, pi) | _ => None end
+  | _ => None end.
+
+Example ex_max_line_hyps :
+  unb_tree 5 ext = true /\ is_set s_no_binary_name ext = false /\
+  N.of_nat (length line) + 2 <= usize_max /\ pline root line pc1 1 false /\
+  (match complete_model [] ext ([112] :: line ++ [[45; 45]]) (N.of_nat (S (length line))) with
+   | COk l => existsb (fun cd => beq (cd_value cd) (ddw w_so) && cand_classw_b pc1 1 false [45; 45] cd) l
+   | _ => false end = true) /\
+  match parse_top ext ([112] :: line ++ [ddw w_so]) with OOk _ => true | _ => false end = true /\
+  (* behind the last value the bounded positional admits: the engine at index 2 in [ValueDone] *)
+  level_at ext [[112]; [102; 49]; [102; 50]; []] 3 = Some ([112], 2) /\
+  (* without the setting: the engine descends, the parser rejects the prefix itself with TooManyValues *)
+  level_at ext0 ([112] :: line ++ [[]]) 4 = Some (w_sub, 1) /\
+  kind_of (parse_top ext0 ([112] :: line)) = Some ETooManyValues.
+Proof.
+  split; [vmr|]. split; [vmr|]. split; [vm_compute; discriminate|]. split; [exact ex_pline|].
+  split; [vmr|]. split; [vmr|]. split; [vmr|]. split; vmr.
+Qed.
+End MaxLine.
+
+(** * Finding C18-low-index-multiples (not repaired: known finding): the engine has no counterpart of the parser's
+      "low index multiples" correction of the positional counter
+
+    `p(--pf; <files>.. required; <dst> required) -> sub(--so)`: a multi-valued positional that is NOT the last one.  At the
+    second-to-last counter the parser peeks at the next word: if that is a subcommand name (or looks like an option) the
+    current word belongs to the NEXT positional.  So `p a b sub` is accepted - files = [a], dst = b, dispatch to `sub` -
+    while the engine keeps filling `files` ([Pos 1 _]: `sub` is one more value), stays at `p` and offers `--pf` (id
+    arg::pf) of `p`; the completed line `p a b sub --pf` is rejected: UnknownArgument.  Same on the real crate
+    (corpus/C18/accept.low-index-multiples.cases). *)
+Module LowIndex.
+Definition w_files : bytes := [102; 105; 108; 101; 115].
+Definition w_dst : bytes := [100; 115; 116].
+Definition w_pf : bytes := [112; 102].
+Definition w_sub : bytes := [115; 117; 98].
+Definition w_so : bytes := [115; 111].
+Definition ddw (s : bytes) : bytes := 45 :: 45 :: s.
+Definition c0 : cmd :=
+  (cmd_new [112])
+    <| c_args := [ (arg_new w_pf) <| a_long := Some w_pf |> <| a_action := Some ASetTrue |>;
+                   (arg_new w_files) <| a_index := Some 1 |> <| a_action := Some ASet |> <| a_required := true |>
+                     <| a_num := Some {| vmin := 1; vmax := usize_max |} |>;
+                   (arg_new w_dst) <| a_index := Some 2 |> <| a_action := Some ASet |> <| a_required := true |> ] |>
+    <| c_subs := [ (cmd_new w_sub) <| c_args := [ (arg_new w_so) <| a_long := Some w_so |> <| a_action := Some ASetTrue |> ] |> ] |>.
+Definition line : list bytes := [[97]; [98]; w_sub].
+Definition has_cand (v : bytes) (i : cid) (r : cres) : bool :=
+  match r with COk l => existsb (fun cd => beq (cd_value cd) v && opt_cid_eqb (cd_id cd) (Some i)) l | _ => false end.
+Definition stands (c : cmd) (args : list bytes) (i : N) : option (bytes * N * N) :=
+  match build_full (build_fuel c) c with
+  | BOk b => match start_walk b args i with WAt _ cur pi (Pos _ k) false _ => Some (c_name cur, pi, k) | _ => None end
+  | _ => None end.
+Definition kind_of (o : outcome) : option ekind := match o with OErr e => Some (e_kind e) | _ => None end.
+Definition chain_of (o : outcome) : option (list bytes) := match o with OOk m => Some (Globals.chain m) | _ => None end.
+End LowIndex.
+
+Theorem low_index_multiples_refuted :
+  LowIndex.chain_of (parse_top LowIndex.c0 ([112] :: LowIndex.line)) = Some [LowIndex.w_sub] /\
+  LowIndex.stands LowIndex.c0 ([112] :: LowIndex.line ++ [[45; 45]]) 4 = Some ([112], 1, 3) /\
+  LowIndex.has_cand (LowIndex.ddw LowIndex.w_pf) (IdArg LowIndex.w_pf)
+    (complete_model [] LowIndex.c0 ([112] :: LowIndex.line ++ [[45; 45]]) 4) = true /\
+  LowIndex.kind_of (parse_top LowIndex.c0 ([112] :: LowIndex.line ++ [LowIndex.ddw LowIndex.w_pf])) = Some EUnknownArgument.
+Proof. vm_compute. repeat split; reflexivity. Qed.
